@@ -6,10 +6,12 @@ Xs(l) == { [i \in 1..l |-> (i * k) % 4] : k \in 0..2 }
 MotifSets == { << <<1>> >>, << <<2, 3>> >>, << <<0>>, <<3, 1>> >>, << <<1, 1, 2>> >>, << <<3>>, <<2>> >>,
                << <<3, 1>>, <<0>> >>, << <<1, 1, 2>>, <<2>>, <<0, 3>> >> }      \* a longer motif listed BEFORE a shorter one
 Ys == { <<0, 0>>, <<3, -2>>, <<-4, 5>> }
+\* tol2 = 4, 8 with a one-output mask: a first improvement d with tol2/2 < d <= tol2, followed by a second improving step, lies between tol * (masked outputs) and tol * (all outputs), so a
+\* loss averaged over ALL outputs instead of the masked ones stops early (round-2 seed C20-5)
 ProblemsQ == { Pr(xx, ms, y, mask, tol2, maxit, km) :
-                 xx \in Xs(3) \cup Xs(4), ms \in MotifSets, y \in Ys, mask \in {{0, 1}, {1}},
-                 tol2 \in {0, 1, 2}, maxit \in {0, 1, 2, Unlimited}, km \in {1, 2} }
+                 xx \in Xs(3) \cup Xs(4), ms \in MotifSets, y \in Ys, mask \in {{0, 1}, {1}, {0}},
+                 tol2 \in {0, 1, 4, 8}, maxit \in {0, 1, 2, Unlimited}, km \in {1, 2} }
 ProblemsT == { Pr(xx, ms, y, mask, tol2, maxit, km) :
                  xx \in Xs(3) \cup Xs(4) \cup Xs(5) \cup Xs(6), ms \in MotifSets, y \in Ys \cup { <<1, 7>>, <<-6, -6>> },
-                 mask \in {{0, 1}, {1}, {0}}, tol2 \in {0, 1, 2, 6}, maxit \in {0, 1, 2, 3, Unlimited}, km \in {1, 2, 3} }
+                 mask \in {{0, 1}, {1}, {0}}, tol2 \in {0, 1, 2, 4, 6, 8, 16}, maxit \in {0, 1, 2, 3, Unlimited}, km \in {1, 2, 3} }
 =============================================================================
